@@ -44,7 +44,8 @@ class Cond:
         p = self.partitions.get(tier)
         if p is None:
             p = self.partitions.get("quick") or [{}]
-        return p
+        k = int(os.environ.get("VERIF_PART_STRIDE", "1"))      # measurement aid only: every k-th partition
+        return p[::k] if k > 1 else p
 
 
 WRAPPER = '''\
